@@ -282,6 +282,22 @@ func (th *Thread) invokeNativeByName(recv Iface, name string) *Native {
 		}
 	case "rtype":
 		return th.rtypeMethod(o, name)
+	case "bytesbody":
+		b := o.data.(*bytesBody)
+		switch name {
+		case "Close":
+			return &Native{name: "body.Close", fn: func(th *Thread, a []Value) Value { b.closed++; return nilError() }}
+		case "Read":
+			return &Native{name: "body.Read", fn: func(th *Thread, a []Value) Value {
+				p := a[1].(Slice).a
+				if b.pos >= len(b.data) {
+					return Tuple{mkBV(64, 0), copyVal(*th.st.globalAddr(th, th.st.eng.P.pkgs["io"].Var("EOF")))}
+				}
+				n := copy(p, b.data[b.pos:])
+				b.pos += n
+				return Tuple{mkBV(64, uint64(n)), nilError()}
+			}}
+		}
 	}
 	th.st.abort("method %s on engine object %s not modelled", name, o.kind)
 	return nil
